@@ -116,7 +116,19 @@ fn name_members(t: &mut Tape, n: &mut Node, order: &[usize], s_names: &[String],
             })
             .collect();
         keyed.sort_by_key(|x| x.0);
-        n.slots = keyed.into_iter().enumerate().map(|(p, (_, (_, slot)))| (format!("{}", p), slot)).collect();
+        let mut slots: Vec<Slot> = keyed.into_iter().map(|(_, (_, slot))| slot).collect();
+        // index renames may also permute the flat members among the positions they occupy (nested structs keep theirs):
+        // the value must arrive at the designated index, not at the position of first mention
+        let leaf_pos: Vec<usize> = slots.iter().enumerate().filter(|(_, s)| matches!(s, Slot::Leaf(_))).map(|x| x.0).collect();
+        if leaf_pos.len() >= 2 && t.chance(1, 3) {
+            let mut shuffled = leaf_pos.clone();
+            t.shuffle(&mut shuffled);
+            let old: Vec<Slot> = slots.clone();
+            for (from, to) in leaf_pos.iter().zip(shuffled.iter()) {
+                slots[*to] = old[*from].clone();
+            }
+        }
+        n.slots = slots.into_iter().enumerate().map(|(p, slot)| (format!("{}", p), slot)).collect();
     } else {
         let mut ci = 0;
         let mut first_child: Option<String> = None;
